@@ -1479,6 +1479,7 @@ def register_short_tip(R):
     # ---- the walk `while child is not None` (loop 1): path = [n, c, first child of c, ...], child = the next node or None at a tip
     def opt_node(eng, cur):
         t = cur.fields["attach"]
+        eng.assumptions.add("list-model: handles built by a comprehension over a symbolic array are stored by their indices (pyvc.ext_C08.ObjList)")
         if eng.branch(fresh("bool", "walk_done")):
             return None
         return Obj(cur.cls, dict(attach=t, idx=fresh("int", "walk_at"), names=cur.fields["names"]))
@@ -1547,6 +1548,7 @@ def register_neurites(R):
             return
         j = fresh("int", "position")
         E.assume(z3.And(j.z >= 0, j.z < g.nz()))
+        E.assumptions.add("list-model: handles built by a comprehension over a symbolic array are stored by their indices (pyvc.ext_C08.ObjList)")
         item, guard, tree = g.element(E, j)
         v["__probe__"] = dict(j=j, item=item, guard=guard, tree=tree)
 
@@ -1707,6 +1709,10 @@ def register_short_tip_call(R):
         memx = lambda q: z3.And(TC(q), LEN(q) + DIST(x, q) <= thre)
         E.assume(z3.And(CNT(0) == 0, z3.ForAll([j], z3.Implies(j >= 0, CNT(j + 1) == CNT(j) + z3.If(memx(ctx.kid(x, j)), 1, 0)), patterns=[CNT(j + 1)])))
         E.ghost["ctb-step"] = dict(x=x, A0=A, r0=ln, args=args, ctx=ctx, CNT=CNT, memx=memx)
+        E.assumptions.add("ghost definition (recursion over the naturals), one per leave step of CutShortTipBranch: CNT(j) = number of short tip-chain children among the first j children")
+        E.assumptions.add("ghost identification: the square root the code takes for (node, k-th child) is DIST(node, child) (same sum of squares, both roots non-negative)")
+        E.assumptions.add("list-model: the child results handed to CutShortTipBranch._leave are a read-only list of Optional[(float, Node handle)] entries (pyvc.ext_C06.OptPairList)")
+        E.assumptions.add("list-model: handles built by a comprehension over a symbolic array are stored by their indices (pyvc.ext_C08.ObjList)")
         return args
 
     def ghost_leave(E, v, x, ctx):
